@@ -18,7 +18,39 @@ ASSUMPTIONS = [
 
 def run(res, tier, seed, search=False, have_drv=True):
     coreprop.run_property(res, PID, PROFILES, tier, seed, search, have_drv)
+    composite_cases(res, tier, seed, have_drv)
+    if res.violations:
+        res.broken = []
+
+
+def composite_cases(res, tier, seed, have_drv):
+    """C01's sub-token clause on real composite sources with timer leaves and leaves that ask the token factory
+    themselves (harness `vh tok`, query `composite`; C20's monitor): an event of one leaf reaches no other leaf."""
+    import os
+    import common as C
+    from props import c20
+    lines = [l for l in c20.gen_cases("quick", seed) if l.startswith("composite ")]
+    impl, model = c20.run_both(lines, have_drv)
+    mon = c20.Monitor()
+    for i, (q, a) in enumerate(zip(lines, impl)):
+        v = mon.check(q, a)
+        if v:
+            res.cov["impl_monitor_failures"] += 1
+            if len(res.violations) < 3:
+                d = C.write_replay(res.pid, {"case.tok": q + "\n", "impl.obs": a + "\n", "verdict.txt": v + "\n"})
+                res.violations.append(("C01 on a real composite source: %s   [%s]" % (v, q), os.path.join(d, "case.tok")))
+        elif model is not None and model[i] != a and not res.broken:
+            res.broken.append("correspondence (composite sources): `%s`: impl `%s` vs model `%s`" % (q, a, model[i]))
+    res.cov["composite_cases"] = len(lines)
+    res.cov["evaluations"] = res.cov.get("evaluations", 0) + len(lines)
 
 
 def replay(path):
+    if path.endswith(".tok"):
+        from props import c20
+        q = open(path).read().strip()
+        impl, _ = c20.run_both([q], False)
+        v = c20.Monitor().check(q, impl[0])
+        print(impl[0]); print("C01:", v)
+        return 1 if v else 0
     return coreprop.replay(path, PID)
